@@ -11,6 +11,8 @@ import (
 	"sort"
 	"strconv"
 	"strings"
+	"sync/atomic"
+	"time"
 
 	"github.com/sirupsen/logrus"
 
@@ -19,6 +21,7 @@ import (
 	"github.com/dolthub/go-mysql-server/sql/variables"
 
 	"verifharness/lib"
+	"verifharness/lib/eng"
 )
 
 type ev struct {
@@ -33,7 +36,10 @@ type ev struct {
 
 type caseT struct {
 	Stream string `json:"stream"` // wf | failbegin | malformed
-	Events []ev   `json:"events"`
+	Events []ev   `json:"events,omitempty"`
+	// engine-kill stream
+	Slow     string `json:"slow,omitempty"`
+	KillStmt string `json:"kill,omitempty"`
 }
 
 func tok(prefix string, n int) string {
@@ -141,9 +147,17 @@ type procObs struct {
 }
 
 func run(c *lib.Ctx, cs caseT) {
+	if cs.Stream == "engine-kill" {
+		runEngineKill(c, cs)
+		return
+	}
 	base := [2]uint64{statusVar("Threads_connected"), statusVar("Threads_running")} // the registry is global
 	pl := sqle.NewProcessList()
 	var ctxs []*sql.Context
+	// server/handler.go: `sqlCtx, err = pl.BeginQuery(sqlCtx, q); defer pl.EndQuery(sqlCtx)` and plan.AddTrackedRowIter's
+	// callback both pass the context RETURNED by BeginQuery (the one Kill cancels); same for BeginOperation/EndOperation.
+	qctx := map[uint64]*sql.Context{}
+	opctx := map[uint32]*sql.Context{}
 	tr := &tracker{conns: map[uint32]*tconn{}, used: map[uint64]bool{}, live: map[uint64]bool{}, wf: true}
 	checkPred := cs.Stream != "malformed"
 	var items []string
@@ -196,6 +210,7 @@ func run(c *lib.Ctx, cs caseT) {
 				if err == nil {
 					outcome = fmt.Sprintf("(OCtx %d)", len(ctxs))
 					ctxs = append(ctxs, nc)
+					qctx[e.Pid] = nc
 				} else if sql.ErrPidAlreadyUsed.Is(err) {
 					outcome = "OErrPidUsed"
 				} else if strings.Contains(err.Error(), "not registered") {
@@ -205,7 +220,10 @@ func run(c *lib.Ctx, cs caseT) {
 				}
 			case "endq":
 				evTerms = []string{fmt.Sprintf("EEndQ %d %d", e.C, e.Pid)}
-				in := sql.NewContext(context.Background(), sql.WithSession(sess(e.C, 0, 0, 0)), sql.WithPid(e.Pid))
+				in := qctx[e.Pid]
+				if in == nil || in.Session.ID() != e.C { // ill-formed histories only: no such query on this connection
+					in = sql.NewContext(context.Background(), sql.WithSession(sess(e.C, 0, 0, 0)), sql.WithPid(e.Pid))
+				}
 				pl.EndQuery(in)
 			case "beginop":
 				evTerms = []string{fmt.Sprintf("EBeginOp %d", e.C)}
@@ -215,6 +233,7 @@ func run(c *lib.Ctx, cs caseT) {
 				if err == nil {
 					outcome = fmt.Sprintf("(OCtx %d)", len(ctxs))
 					ctxs = append(ctxs, nc)
+					opctx[e.C] = nc
 				} else if strings.Contains(err.Error(), "not registered") {
 					outcome = "OErrNotRegistered"
 				} else if strings.Contains(err.Error(), "already running") {
@@ -224,7 +243,10 @@ func run(c *lib.Ctx, cs caseT) {
 				}
 			case "endop":
 				evTerms = []string{fmt.Sprintf("EEndOp %d", e.C)}
-				in := sql.NewContext(context.Background(), sql.WithSession(sess(e.C, 0, 0, 0)))
+				in := opctx[e.C]
+				if in == nil {
+					in = sql.NewContext(context.Background(), sql.WithSession(sess(e.C, 0, 0, 0)))
+				}
 				pl.EndOperation(in)
 			case "kill":
 				evTerms = []string{fmt.Sprintf("EKill %d", e.C)}
@@ -400,6 +422,125 @@ func run(c *lib.Ctx, cs caseT) {
 	}
 }
 
+// ---------------- engine-level slice: a real KILL issued from a second session ----------------
+var engE *eng.E
+var engPid atomic.Uint64
+
+func engSetup() {
+	if engE != nil {
+		return
+	}
+	engE = eng.New("db")
+	s := engE.Session()
+	s.MustExec("CREATE TABLE big (i INT PRIMARY KEY)")
+	var vals []string
+	for i := 0; i < 300; i++ {
+		vals = append(vals, fmt.Sprintf("(%d)", i))
+	}
+	s.MustExec("INSERT INTO big VALUES " + strings.Join(vals, ","))
+}
+
+// handlerQuery runs q as server/handler.go doQuery does: BeginQuery, deferred EndQuery with the returned context,
+// Engine.Query, spool rows, Close (whose tracked iterator calls EndQuery too).
+func handlerQuery(s *eng.S, q string) (rows []sql.Row, err error) {
+	pl := engE.Engine.ProcessList
+	ctx := sql.NewContext(context.Background(), sql.WithSession(s.Ctx.Session), sql.WithPid(engPid.Add(1)), sql.WithProcessList(pl))
+	ctx.SetCurrentDatabase("db")
+	ctx, err = pl.BeginQuery(ctx, q)
+	if err != nil {
+		return nil, err
+	}
+	defer pl.EndQuery(ctx)
+	_, iter, _, err := engE.Engine.Query(ctx, q)
+	if err != nil {
+		return nil, err
+	}
+	for {
+		row, e := iter.Next(ctx)
+		if e == io.EOF {
+			break
+		}
+		if e != nil {
+			iter.Close(ctx)
+			return rows, e
+		}
+		rows = append(rows, row.Copy())
+	}
+	return rows, iter.Close(ctx)
+}
+
+func runEngineKill(c *lib.Ctx, cs caseT) {
+	engSetup()
+	c.Count("stream_engine-kill")
+	id := c.CaseNoModel(cs, "engine-kill/"+cs.Slow+"/"+cs.KillStmt)
+	c.PredChecked()
+	pl := engE.Engine.ProcessList
+	s1, s2 := engE.Session(), engE.Session()
+	id1, id2 := s1.Ctx.Session.ID(), s2.Ctx.Session.ID()
+	baseC, baseR := statusVar("Threads_connected"), statusVar("Threads_running")
+	pl.AddConnection(id1, "h1")
+	pl.ConnectionReady(s1.Ctx.Session)
+	pl.AddConnection(id2, "h2")
+	pl.ConnectionReady(s2.Ctx.Session)
+	fail := func(sig, what string) { c.PredFail(id, "engine-kill/"+sig, what, cs) }
+	type res struct {
+		err error
+		dur time.Duration
+	}
+	done := make(chan res, 1)
+	go func() {
+		t0 := time.Now()
+		_, err := handlerQuery(s1, cs.Slow)
+		done <- res{err, time.Since(t0)}
+	}()
+	// wait until the victim is shown running its query
+	shown := false
+	for t0 := time.Now(); time.Since(t0) < 2*time.Second && !shown; {
+		for _, p := range pl.Processes() {
+			if p.Connection == id1 && p.Command == sql.ProcessCommandQuery && p.Query == cs.Slow {
+				shown = true
+			}
+		}
+	}
+	if !shown {
+		fail("running-query-not-shown", fmt.Sprintf("connection %d runs %q but Processes() never showed it", id1, cs.Slow))
+	}
+	if _, err := handlerQuery(s2, fmt.Sprintf("%s %d", cs.KillStmt, id1)); err != nil {
+		fail("kill-statement-failed", err.Error())
+	}
+	r := <-done
+	if r.err == nil && r.dur > 1500*time.Millisecond {
+		fail("kill-did-not-cancel-the-running-query", fmt.Sprintf("%q ran to completion (%v) although %s %d was issued", cs.Slow, r.dur, cs.KillStmt, id1))
+	}
+	// SHOW STATUS from the killer's session: only that statement itself is running now
+	rows, err := handlerQuery(s2, "SHOW STATUS LIKE 'Threads_running'")
+	if err != nil || len(rows) != 1 {
+		fail("show-status-failed", fmt.Sprint(err, rows))
+	} else if got := fmt.Sprint(rows[0][1]); got != fmt.Sprint(baseR+1) {
+		fail("Threads_running-after-killed-query", fmt.Sprintf("after %s %d of %q and its EndQuery, SHOW STATUS LIKE 'Threads_running' = %s, expected %d (the SHOW statement only)", cs.KillStmt, id1, cs.Slow, got, baseR+1))
+	}
+	if got := statusVar("Threads_running"); got != baseR {
+		fail("Threads_running-after-killed-query", fmt.Sprintf("after %s %d of %q and its EndQuery Threads_running = %d with 0 running queries (start value %d)", cs.KillStmt, id1, cs.Slow, got, baseR))
+	}
+	for _, p := range pl.Processes() {
+		if (p.Connection == id1 || p.Connection == id2) && (p.Command == sql.ProcessCommandQuery || p.Query != "" || p.QueryPid != 0) {
+			fail("idle-session-shows-a-query", fmt.Sprintf("connection %d shows %s %q pid %d after all queries ended", p.Connection, p.Command, p.Query, p.QueryPid))
+		}
+	}
+	// the cancellation must not leak into the victim's next query
+	if rows, err := handlerQuery(s1, "SELECT 41 + 1"); err != nil || len(rows) != 1 || fmt.Sprint(rows[0][0]) != "42" {
+		fail("cancellation-leaked-into-next-query", fmt.Sprintf("next query on the killed connection: rows %v err %v", rows, err))
+	}
+	if got := statusVar("Threads_running"); got != baseR {
+		fail("Threads_running-after-killed-query", fmt.Sprintf("Threads_running = %d after the follow-up query (start value %d)", got, baseR))
+	}
+	pl.RemoveConnection(id1)
+	pl.RemoveConnection(id2)
+	if got := statusVar("Threads_connected"); got != baseC {
+		fail("Threads_connected-after-disconnect", fmt.Sprintf("Threads_connected = %d, start value %d", got, baseC))
+	}
+}
+
 // ---------------- generators ----------------
 type gconn struct {
 	phase int
@@ -569,6 +710,11 @@ func main() {
 			{Stream: "malformed", Events: []ev{{K: "add", C: 1}, {K: "beginq", C: 1, Pid: 3, Q: 1}, {K: "remove", C: 1}, {K: "endq", C: 1, Pid: 3}}},
 			{Stream: "malformed", Events: []ev{{K: "add", C: 1}, {K: "beginq", C: 1, Pid: 3, Q: 1}, {K: "ready", C: 1, U: 1}, {K: "endq", C: 1, Pid: 3}, {K: "beginq", C: 1, Pid: 3, Q: 2}}},
 		}
+		corpus = append(corpus,
+			caseT{Stream: "engine-kill", Slow: "SELECT SLEEP(2)", KillStmt: "KILL QUERY"},
+			caseT{Stream: "engine-kill", Slow: "SELECT SLEEP(2), 1", KillStmt: "KILL CONNECTION"},
+			caseT{Stream: "engine-kill", Slow: "SELECT COUNT(*) FROM big a, big b, big c WHERE a.i + b.i + c.i < 0", KillStmt: "KILL QUERY"},
+			caseT{Stream: "engine-kill", Slow: "SELECT SLEEP(2) FROM big WHERE i < 2", KillStmt: "KILL QUERY"})
 		for _, cs := range corpus {
 			run(c, cs)
 		}
